@@ -155,7 +155,8 @@ def gen_params(rng, ds, tier):
                 sel = sel[:1]; proj = proj[:1]
         configs.append(dict(sel=sel, proj=proj, polarized=bool(rng.random() < 0.6), mask_corners=bool(rng.random() < 0.6)))
     span = ds['span']
-    chunk = int(rng.choice([1, 2, 7, max(1, span // 7), max(1, span // 2), span, 3 * span]))
+    cands = [c for c in [1, 2, 7, max(1, span // 17), max(1, span // 7), max(1, span // 2), span, 3 * span] if span // c <= 60]
+    chunk = int(rng.choice(cands))
     sub = {}
     for p in range(P):
         if rng.random() < 0.85 or not sub:
@@ -340,7 +341,8 @@ def expected_mask(proj, polarized, mc):
     m = np.zeros(shape, dtype=bool)
     for idx in itertools.product(*[range(s) for s in shape]):
         corner = all(j == 0 for j in idx) or all(j == p for j, p in zip(idx, proj))
-        m[idx] = (mc and corner) or ((not polarized) and sum(idx) > T // 2)
+        # Spectrum.fold() builds its result with the constructor's default mask_corners=True: a folded spectrum always has masked corners
+        m[idx] = (mc and corner) or ((not polarized) and (sum(idx) > T // 2 or corner))
     return m
 
 # ---- statistics from columns (complete data)
@@ -536,7 +538,7 @@ def check_chunks(chk, ctx, ds, dd, model_entries, pop_names_all, codes, tag):
         ck = [split_key(k) for k in f]
         if len(set(c[0] for c in ck)) > 1:
             chk.fail('fragment_data_dict:%s:chromosomes' % tag, 'a chunk mixes chromosomes', inp); break
-        ps = [c[1] for c in ck]
+        ps = [max(c[1], 1) for c in ck]                 # position 0 (unnamed SNPs of a SNP file) belongs to the first chunk
         if ps and max(ps) - min(ps) >= size:
             chk.fail('fragment_data_dict:%s:span' % tag, 'a chunk spans %d bp >= chunk_size %d' % (max(ps) - min(ps) + 1, size), inp); break
     try:
@@ -886,8 +888,8 @@ def gen_dict_dataset(rng, tier, addinfo='none'):
         info = None
         if addinfo == 'distinct' and rng.random() < 0.5: info = str(rng.choice(['a', 'b', '2', 'x.y']))
         key = '%s_%d%s' % (s['chrom'], s['pos'], '.' + info if info else '')
-        if key in seen: continue
-        seen.add(key)
+        if (s['chrom'], s['pos']) in seen: continue           # one entry per position here; 'mixed' adds the recurrent-mutation case
+        seen.add((s['chrom'], s['pos']))
         entries.append(dict(key=key, seg=seg, out=out, counts=counts))
     if addinfo == 'mixed' and entries:
         # the documented use of additional_info: a recurrent mutation at a site that is already present without a suffix
@@ -896,8 +898,7 @@ def gen_dict_dataset(rng, tier, addinfo='none'):
         k2 = '%s_%d.%s' % (chrom, pos, 'b' if info is None else info + 'b')
         if info is not None:
             entries.append(dict(e, key='%s_%d' % (chrom, pos)))
-        if k2 not in seen:
-            entries.append(dict(e, key=k2))
+        entries.append(dict(e, key=k2))
     ds = dict(kind='dict', pops=pops, ndip=base['ndip'], entries=entries, span=base['span'], full=False, addinfo=addinfo)
     ds['params'] = base['params']
     return ds
@@ -1052,7 +1053,7 @@ def gen_dp_dataset(rng, tier):
     ds = gen_dataset(rng, tier, kind='dp')
     ds['fmt'] = str(rng.choice(['GT:DP', 'GT:AD:DP', 'GT:DP:AD', 'GT:AD']))
     for s in ds['sites']:
-        s['dpstyle'] = 'zero'
+        s['dpstyle'] = 'zero' if rng.random() < 0.7 else 'dot'
         s['nodata'] = [bool(rng.random() < 0.25) for _ in ds['samples']]
         for k, nod in enumerate(s['nodata']):
             if nod and rng.random() < 0.5:
@@ -1079,7 +1080,7 @@ def run(chk, ctx):
                 'samples absent from the popinfo file; shuffled sample order; repeated CHROM_POS; popinfo with/without header and comments. Rendered to VCF+popinfo and to the '
                 'SNP-file format (multi-character alleles, "-"/N outgroup, ids or no ids); hand-made dictionaries (non-biallelic entries, no outgroup key, additional_info). '
                 'Per data set 2-3 configurations (population subset/order, projections incl. full, 1, n-1; polarised or folded; corners masked or not), one chunk size from '
-                '{1,2,7,span/7,span/2,span,3*span}, 1-3 bootstraps with recorded choices, one sub-sampling request with recorded draws. Complete data sets for the statistics. '
+                '{1,2,7,span/17,span/7,span/2,span,3*span} (at most ~60 chunks per chromosome), 1-3 bootstraps with recorded choices, one sub-sampling request with recorded draws. Complete data sets for the statistics. '
                 'non-trivial = distinct (stage, #populations, polarised, mask, projection class, some/all/no SNP usable, chunk/bootstrap/sub-sampling class)')
     chk.unproved = [
         'text parsing (VCF, popinfo, SNP file) is not modelled in Lean: the abstraction of a line to the fields the model looks at is done by the harness and validated by K through the real parsers',
@@ -1098,7 +1099,7 @@ def run(chk, ctx):
     check_weights(chk, ctx, rng, 60 if tier == 'quick' else 600)
     if have_driver(ctx):
         out = ask(ctx, 'shapes13')
-        if out.strip() == 'ok 1 1 1 1 1 1 1 1': chk.k_ok('shapes13')
+        if out.strip() == 'ok 1 1 1 1 1 1 1 1 1': chk.k_ok('shapes13')
         else: chk.k_bad('shapes13', dict(kind='shapes'), None, out, None)
     for it in range(nv):
         check_dataset(chk, ctx, gen_dataset(rng, tier, 'vcf'), rng)
